@@ -252,7 +252,8 @@ def layout(r, uni=False):
         elif k < 0.60:
             lines.append("%s = '''multi\n# hash inside\nline'''  # tail" % name(r))
         elif k < 0.64:
-            lines.append("%s = 1 + \\\n    2" % name(r))
+            lines.append(r.choice(["%s = 1 + \\\n    2" % name(r), "%s = 1; \\\n%s" % (name(r), imp(r)),
+                                   "%s  # type: int" % expr(r), "%s = [1]  # type: %s" % (name(r), dotted(r))]))
         else:
             lines += stmt(r, 1, 0)
     src = '\n'.join(lines)
@@ -677,7 +678,7 @@ def evaluate_models(cases, impl, cfg="repaired"):
     """-> list of model results (dict) or None, aligned with cases; plus per-case attribute results."""
     exprs, where = [], []
     for ci, (c, im) in enumerate(zip(cases, impl)):
-        if "__exc__" in im or "__timeout__" in im or too_big(im):
+        if "__exc__" in im or "__timeout__" in im or c.get("oracle_only") or too_big(im):
             continue
         e = model_expr(c, im, cfg)
         if e is None:
